@@ -1,5 +1,5 @@
-\* the statement itself on queue.go as it is, without any fault: TLC must find the lead (delete, then timeout rollback, in one pass)
-CONSTANTS Nodes = {"n1", "n2"}  Cmds = {"A"}  MaxRepl = 2  T = 1  MaxNow = 2  MaxFaults = 0  MaxRestarts = 0
-          DelFaults = TRUE  CodeMode = "code"  Weak = "none"  Serial = FALSE  Gen = FALSE  MaxLen = 0
+\* spec mutation = queue.go before fix 43007e763 (F-C08-1: the deferred wrap declares a timeout although the deletes just succeeded), no fault: TLC must reject it
+CONSTANTS Nodes = {"n1", "n2"}  Cmds = {"A"}  MaxRepl = 2  T = 1  MaxNow = 2  MaxFaults = 0  MaxRestarts = 0  MaxCandVanish = 0
+          DelFaults = TRUE  CodeMode = "wrapAlways"  Weak = "none"  Serial = FALSE  Gen = FALSE  MaxLen = 0
 SPECIFICATION Spec
 INVARIANTS Inv_C08_NoDeleteAfterFailure
